@@ -231,8 +231,9 @@ func (g *gen) tv(name string) string {
 	return "{{" + name + "}}"
 }
 
-func (g *gen) pick(xs ...string) string { return xs[g.r.Intn(len(xs))] }
-func (g *gen) p(pct int) bool           { return g.r.Intn(100) < pct }
+func (g *gen) pick(xs ...string) string   { return xs[g.r.Intn(len(xs))] }
+func (g *gen) pickNode(xs ...*node) *node { return xs[g.r.Intn(len(xs))] }
+func (g *gen) p(pct int) bool             { return g.r.Intn(100) < pct }
 
 func (g *gen) listValues(key string) []string {
 	var pool []string
@@ -538,6 +539,26 @@ func (g *gen) service(i int) (*node, string) {
 var malformedKinds = []string{
 	"bad-skip-regex", "bad-skip-regex", "bad-rewrite-from", "unknown-type", "missing-from", "missing-to", "missing-service",
 	"non-list", "non-list", "bad-scalar", "dup-key", "tabs", "empty-doc", "top-level-map",
+	"null-entry", "null-entry", "not-a-map", "not-a-map", "hostless-url", "hostless-url", "hostless-url", "odd-chars", "odd-chars",
+	"rewrite-bad-target", "long-values", "untagged-key", "untagged-key",
+}
+
+// values that parse as URLs but name no host (or are no URL at all)
+var hostlessValues = []string{"/x", "'http://'", "':8080'", "//", "'?x'", "'#x'", "'   '", "'https://'", "'http://user@'", "'http://:80/p'",
+	"'///path'", "'http://?q=1'", "'/'", "'http:///x'", "\"\\t\"", "'[]'", "'http://[]:80'"}
+
+// from/to/other values with embedded whitespace or control characters (double-quoted YAML escapes)
+var oddHostValues = []string{"'svc 0.sso.example.com'", "\"svc0.sso.example.com\\n\"", "\"svc0\\t.sso.example.com\"", "\"svc0.sso.example.com\\u0000\"",
+	"\"svc0.sso.example.com\\r\\nX-Injected: 1\"", "' svc0.sso.example.com'", "'svc0.sso.example.com '", "\"\\u007fsvc0.sso.example.com\"",
+	"'svc0.sso.example.com/a b'", "\"svc0.sso.example.com/a\\nb\""}
+
+func (g *gen) randomRoute(b *node) *node {
+	if x := b.get("extra_routes"); x != nil && x.kind == nSeq && len(x.items) > 0 && g.p(35) {
+		if e := x.items[g.r.Intn(len(x.items))]; e.kind == nMap {
+			return e
+		}
+	}
+	return b
 }
 
 // relevantBlocks returns the blocks of a service entry that apply to the selected cluster.
@@ -654,6 +675,164 @@ func (g *gen) malform(kind string, top *node) {
 			ensureOptions(b).set(g.pick("tls_skip_verify", "preserve_host", "skip_request_signing"), sc(g.pick("maybe", "'true'", "2")))
 		default:
 			ensureOptions(b).set("timeout", sq(sc("3s")))
+		}
+	case "null-entry":
+		// null where a mapping (or a value) is expected, at every level
+		switch g.r.Intn(8) {
+		case 0: // a service entry that is just a dash
+			at := g.r.Intn(len(top.items) + 1)
+			top.items = append(top.items[:at], append([]*node{null()}, top.items[at:]...)...)
+		case 1, 2, 3: // an extra_routes entry that is just a dash
+			b := g.ensureRelevant(s, i)
+			x := b.get("extra_routes")
+			if x == nil || x.kind != nSeq {
+				x = sq()
+				b.set("extra_routes", x)
+			}
+			at := g.r.Intn(len(x.items) + 1)
+			x.items = append(x.items[:at], append([]*node{null()}, x.items[at:]...)...)
+		case 4: // a null cluster / default block
+			if g.p(50) {
+				s.set("default", null())
+			} else {
+				s.set(g.cluster, null())
+			}
+		case 5:
+			g.ensureRelevant(s, i).set("options", null())
+		case 6:
+			o := ensureOptions(g.ensureRelevant(s, i))
+			o.set(g.pick("header_overrides", "inject_request_headers"), mp().add("X-Null", null()).add("X-Frame-Options", sc("DENY")))
+		default:
+			o := ensureOptions(g.ensureRelevant(s, i))
+			o.set(g.pick("allowed_groups", "allowed_email_domains", "skip_auth_regex"), sq(null(), sc("grp-a@corp.test")))
+		}
+	case "not-a-map":
+		// scalar / list where a mapping is expected
+		bad := func() *node {
+			if g.p(50) {
+				return sc(g.pick("foo", "'true'", "42", "''"))
+			}
+			return sq(sc("a"), sc("b"))
+		}
+		switch g.r.Intn(7) {
+		case 0:
+			top.items[i] = bad()
+		case 1:
+			if g.p(50) {
+				s.set("default", bad())
+			} else {
+				s.set(g.cluster, bad())
+			}
+		case 2:
+			g.ensureRelevant(s, i).set("options", bad())
+		case 3, 4:
+			b := g.ensureRelevant(s, i)
+			x := b.get("extra_routes")
+			if x == nil || x.kind != nSeq {
+				x = sq()
+				b.set("extra_routes", x)
+			}
+			x.items = append(x.items, bad())
+		case 5:
+			ensureOptions(g.ensureRelevant(s, i)).set(g.pick("header_overrides", "inject_request_headers"), bad())
+		default:
+			ensureOptions(g.ensureRelevant(s, i)).set("header_overrides", mp().add("X-Frame-Options", g.pickNode(sq(sc("DENY")), mp().add("a", sc("b")))))
+		}
+	case "hostless-url":
+		t := g.randomRoute(g.ensureRelevant(s, i))
+		if tn := t.get("type"); tn != nil && tn.text == "rewrite" {
+			t.del("type")
+		}
+		v := hostlessValues[g.r.Intn(len(hostlessValues))]
+		if g.p(50) {
+			t.set("from", sc(v))
+			if t.get("to") == nil && g.p(50) {
+				t.set("to", sc(q(g.toHost(i, "-h"))))
+			}
+		} else {
+			t.set("to", sc(v))
+		}
+		// the other blocks must not turn the route into a rewrite route
+		for _, b := range g.relevantBlocks(s) {
+			if tn := b.get("type"); tn != nil && tn.text == "rewrite" {
+				b.del("type")
+				b.set("from", sc(q(g.fromHost(i, "-h"))))
+				b.set("to", sc(q(g.toHost(i, "-h"))))
+			}
+		}
+	case "odd-chars":
+		b := g.ensureRelevant(s, i)
+		switch g.r.Intn(6) {
+		case 0, 1:
+			g.randomRoute(b).set("from", sc(strings.Replace(oddHostValues[g.r.Intn(len(oddHostValues))], "svc0", fmt.Sprintf("svc%d", i), 1)))
+		case 2:
+			g.randomRoute(b).set("to", sc(strings.Replace(oddHostValues[g.r.Intn(len(oddHostValues))], "svc0", fmt.Sprintf("svc%d", i), 1)))
+		case 3:
+			s.set("service", sc(g.pick("\"svc\\n0\"", "\"svc\\u0000x\"", "\"\\tsvc\\t\"", "\"svc\\r\\nother\"")))
+		case 4:
+			ensureOptions(b).set("header_overrides", mp().add("X-Frame-Options", sc("\"DENY\\r\\nSet-Cookie: a=b\"")).add("X-Env", sc("' padded '")))
+		default:
+			ensureOptions(b).set("allowed_groups", sq(sc("'grp with space@corp.test'"), sc("\"grp-nl@corp.test\\n\""), sc("\"\\u0000\"")))
+		}
+	case "rewrite-bad-target":
+		b := g.ensureRelevant(s, i)
+		t := g.randomRoute(b)
+		t.set("type", sc("rewrite"))
+		t.set("from", sc(q(fmt.Sprintf(`^svc%d-rw--(.*)\.sso\.example\.com$`, i))))
+		t.set("to", sc(g.pick("'$1 bad.internal'", "'%zz$1'", "'$1:notaport'", "'http://[$1'", "'/$1'", "'$1'", "'${2}'", "\"$1\\n.internal\"", "'://$1'")))
+	case "long-values":
+		b := g.ensureRelevant(s, i)
+		long := func(n int) string { return strings.Repeat("a", n) }
+		switch g.r.Intn(6) {
+		case 0:
+			g.randomRoute(b).set("from", sc(fmt.Sprintf("svc%d-%s.sso.example.com", i, long(3000+g.r.Intn(3000)))))
+		case 1:
+			g.randomRoute(b).set("to", sc(fmt.Sprintf("svc%d.%s.internal.example.org", i, long(5000))))
+		case 2:
+			var items []*node
+			for k := 0; k < 400; k++ {
+				items = append(items, sc(fmt.Sprintf("grp-%d@corp.test", k)))
+			}
+			ensureOptions(b).set("allowed_groups", sq(items...))
+		case 3:
+			var items []*node
+			for k := 0; k < 200; k++ {
+				items = append(items, sc(fmt.Sprintf("'^/p%d/.*$'", k)))
+			}
+			ensureOptions(b).set("skip_auth_regex", sq(items...))
+		case 4:
+			ensureOptions(b).set("skip_auth_regex", sq(sc(g.pick("'^/(a{1000}){1000}$'", "'^/"+long(20000)+"$'", "'^/a{1001}$'"))))
+		default:
+			s.set("service", sc("svc"+long(10000)))
+			ensureOptions(b).set("header_overrides", mp().add("X-Long", sc(long(8000))))
+		}
+	case "untagged-key":
+		// undocumented keys that collide with Go struct fields which carry no yaml tag
+		b := g.ensureRelevant(s, i)
+		switch g.r.Intn(10) {
+		case 0, 1, 2:
+			ensureOptions(g.randomRoute(b)).set("cookiename", sc(g.pick("evil", "_other", "''")))
+		case 3:
+			b.set("route", sc("foo"))
+			b.set("service", sc("other-service"))
+		case 4:
+			b.set("allowedgroups", sq(sc("undocumented@corp.test")))
+			b.set("allowedemaildomains", sq(sc("*")))
+		case 5:
+			b.set("passaccesstoken", sc("true"))
+			b.set("skipauthpreflight", sc("true"))
+		case 6:
+			b.set("timeout", sc("99s"))
+			b.set("tlsskipverify", sc("true"))
+			b.set("providerslug", sc("undocumented"))
+			b.set("cookiename", sc("evil"))
+		case 7:
+			b.set("skipauthcompiledregex", sq(sc("'^/undocumented$'")))
+		case 8:
+			b.set("hmacauth", sc(g.pick("x", "'sha256:secret'")))
+		default:
+			b.set("headeroverrides", mp().add("X-Undocumented", sc("1")))
+			b.set("routeconfig", mp().add("from", sc("undocumented.sso.example.com")))
 		}
 	case "dup-key":
 		b := g.ensureRelevant(s, i)
